@@ -60,6 +60,52 @@ static std::vector<std::string> sched_gen(const GenArgs &ga) {
   pl.push_back("prop " + ga.prop);
   pl.push_back("engine sched");
   pl.push_back(strf("seed %llu", (unsigned long long)ga.seed));
+  // ---- enumerated part: every single forced switch at a synchronisation point, for six small scenarios ----
+  {
+    const int K = thorough ? 120 : 40, T = 3, NSC = thorough ? 6 : 4;
+    uint64_t per = (uint64_t)K * T;
+    if (ga.index < per * NSC) {
+      int sc = (int)(ga.index / per);
+      int k = (int)(ga.index % per) / T, to = (int)(ga.index % per) % T;
+      pl.push_back(strf("cfg tasks=3 strategy=enum p=64 pct_d=1 schedseed=1 slots=1 fs=ok enum=%d:%d", k, to));
+      static const char *cold[] = {"sim_add_s16", "old_add_u8", "c99_add_s16", "orc_memcpy"};
+      for (int t = 0; t < 3; t++) {
+        if (sc < 4) {
+          pl.push_back(strf("t%d op wrapper w=%s n=%d ds=%d", t, cold[sc], 5 + t, 100 + t));
+          pl.push_back(strf("t%d op wrapper w=%s n=%d ds=%d", t, cold[sc], 9 + t, 200 + t));
+        } else if (sc == 4) {
+          if (t == 0) { pl.push_back("t0 op private spec=fixed:addw n=9 ds=7"); pl.push_back("t0 op churn spec=gen:5:6:8:1 n=9 ds=8"); }
+          if (t == 1) { pl.push_back("t1 op churn spec=gen:6:9:8:1 n=7 ds=9"); pl.push_back("t1 op churn spec=gen:7:3:8:1 n=7 ds=10"); }
+          if (t == 2) { pl.push_back("t2 op wrapper w=sim_xor_u32 n=11 ds=11"); pl.push_back("t2 op private spec=fixed:subb n=5 ds=12"); }
+        } else {
+          if (t == 0) { pl.push_back("t0 op publish slot=0 spec=gen:9:5:8:1"); pl.push_back("t0 op use slot=0 mode=exec n=9 ds=13"); }
+          if (t == 1) { pl.push_back("t1 op use slot=0 mode=emulate n=8 ds=14"); pl.push_back("t1 op take slot=0 n=8 ds=15"); }
+          if (t == 2) { pl.push_back("t2 op churn spec=gen:11:7:8:1 n=6 ds=16"); pl.push_back("t2 op use slot=0 mode=exec n=6 ds=17"); }
+        }
+      }
+      return pl;
+    }
+    // thorough tier: every PAIR of forced switches among the first 18 synchronisation points, for the four
+    // once-protocol scenarios
+    const int K2 = 18;
+    uint64_t singles = per * NSC, pairs_per = (uint64_t)K2 * K2 * T * T;
+    if (thorough && ga.index < singles + pairs_per * 4) {
+      uint64_t x = ga.index - singles;
+      int sc = (int)(x / pairs_per);
+      x %= pairs_per;
+      int to2 = (int)(x % T); x /= T;
+      int to1 = (int)(x % T); x /= T;
+      int k2 = (int)(x % K2); x /= K2;
+      int k1 = (int)x;
+      pl.push_back(strf("cfg tasks=3 strategy=enum p=64 pct_d=1 schedseed=1 slots=1 fs=ok enum=%d:%d,%d:%d", k1, to1, k1 + 1 + k2, to2));
+      static const char *cold[] = {"sim_add_s16", "old_add_u8", "c99_add_s16", "orc_memcpy"};
+      for (int t = 0; t < 3; t++) {
+        pl.push_back(strf("t%d op wrapper w=%s n=%d ds=%d", t, cold[sc], 5 + t, 100 + t));
+        pl.push_back(strf("t%d op wrapper w=%s n=%d ds=%d", t, cold[sc], 9 + t, 200 + t));
+      }
+      return pl;
+    }
+  }
   int ntasks = 2 + (int)sw.below(thorough ? 15 : 7);
   static const char *strat[] = {"sync", "random", "random", "pct", "conflict"};
   std::string st = strat[sw.below(5)];
@@ -445,7 +491,13 @@ static void sched_run(const std::vector<std::string> &plan, Child &c) {
   if ((int)ctx.task_ops.size() < ntasks) ctx.task_ops.resize(ntasks);
   ntasks = std::min<int>(ctx.task_ops.size(), 16);
   std::string st = kv(cfg_w, "strategy", "sync");
-  rc.strategy = explicit_schedule || !rc.schedule.empty() || st == "replay" ? rt::S_REPLAY
+  if (st == "enum") {
+    for (auto &item : split(kv(cfg_w, "enum", ""), ',')) {
+      unsigned long long k = 0; int to = 0;
+      if (sscanf(item.c_str(), "%llu:%d", &k, &to) == 2) rc.enum_points.push_back({k, to});
+    }
+  }
+  rc.strategy = explicit_schedule || !rc.schedule.empty() || st == "replay" ? rt::S_REPLAY : st == "enum" ? rt::S_ENUM
                 : st == "random" ? rt::S_RANDOM : st == "pct" ? rt::S_PCT : st == "conflict" ? rt::S_CONFLICT : rt::S_SYNC;
   rc.p_den = (int)kvi(cfg_w, "p", 64);
   rc.pct_d = (int)kvi(cfg_w, "pct_d", 2);
